@@ -123,7 +123,7 @@ def lossy_class(t: tuple, v: Any) -> str | None:
         return None
     if t[0] == "float" and t[1] == 32 and isinstance(v, float) and v == v and not f32_representable(v):
         return "float32-narrowing-silently-rounds"
-    if t[0] == "int" and isinstance(v, (float, Decimal)) and not isinstance(v, bool):
+    if t[0] in ("int", "date", "ts", "time", "dur") and isinstance(v, (float, Decimal)) and not isinstance(v, bool):  # integer-valued columns
         try:
             if v != int(v):
                 return "fractional-number-for-int-silently-truncated"
@@ -168,7 +168,8 @@ def targeted_ill(t: tuple, rng: Any) -> list[Any]:
         return [H.Pt(1, 2.0).serialize_to_bytes(), b"junk", H.Pt(1, 2.0), H.Box(H.Pt(0, 0.0)), None, "x"]
     if k in ("date", "ts", "time", "dur"):
         return [
-            dt.date(2020, 1, 2), dt.datetime(2020, 1, 2, 3, 4, 5, 678901), dt.datetime(2020, 1, 2, 3, 4, 5, 678901, tzinfo=dt.timezone.utc),
+            dt.datetime(2020, 1, 2, 3, 4, 5, 678901, tzinfo=dt.timezone.utc if (t[0] == "ts" and t[2]) else None), dt.date(2020, 1, 2),
+            dt.datetime(2020, 1, 2, 3, 4, 5, 678901), dt.datetime(2020, 1, 2, 3, 4, 5, 678901, tzinfo=dt.timezone.utc),
             dt.datetime(2020, 1, 2, 3, 4, 5, tzinfo=dt.timezone.utc), dt.datetime(1969, 12, 31, 23, 59, 59, 999999), dt.time(1, 2, 3, 456789),
             dt.timedelta(microseconds=-1), dt.timedelta(days=1, microseconds=1), dt.timedelta.max, dt.datetime.min, dt.datetime.max, "x", None,
         ]
@@ -196,6 +197,18 @@ def unsafe(t: tuple, v: Any) -> bool:
         return False
     if t[0] in ("list", "set") and isinstance(v, (list, tuple, set, frozenset)):
         return any(unsafe(t[1], x) for x in v)
+    return False
+
+
+def model_skip(t: tuple, v: Any) -> bool:
+    """Dataclass decoding is abstract in the model (deser (ser d) = Some d): bytes that are not the serialization of
+    an instance of the declared class, or instances of another class, are checked by the oracle only."""
+    import harness.c02_echo as H
+
+    if t[0] == "opt":
+        return model_skip(t[1], v)
+    if t[0] == "data":
+        return isinstance(v, (bytes, bytearray, str)) or (isinstance(v, H.ArrowSerializableDataclass) and type(v) is not H.DATAS[t[1]])
     return False
 
 
@@ -299,11 +312,14 @@ def run(ctx: Any) -> None:
     ok_a, bad_a, log_a = ctx.coq_mismatches(HEADER, "run_case", "case_eqb", cases_a, "bool * N * ty * option value * value", "N * value")
     ctx.count("model_cases", len(cases_a))
     ctx.obligation("env:pyarrow-conversion-model(M_Values.arrow_rt)", "environment", ok_a and not bad_a, log_a if not ok_a else f"{len(bad_a)} of {len(cases_a)} cells disagree")
-    for i in bad_a[:6]:
+    dis_a = []
+    for i in bad_a[:8]:
         t, v, out = info_a[i]
         shown = ctx.coq_show(HEADER, f"run_case {cases_a[i][0]}")
+        dis_a.append({"annotation": H.ann_src(t), "value": repr(v)[:300], "pyarrow": out[:300], "model": shown[-300:]})
+    if dis_a:
         ctx.violation("pyarrow-model-disagree", "pyarrow converts differently from the model (environment fact, not a repository change)",
-                      {"annotation": H.ann_src(t), "value": repr(v), "pyarrow": out, "model": shown[-400:]})
+                      {"first": dis_a[0], "more": dis_a[1:], "total": len(bad_a)})
 
     # ------------------------------------------------------------------ (B) the echo path
     cases_b: list[tuple[str, str]] = []
@@ -390,8 +406,10 @@ def run(ctx: Any) -> None:
                     if not same:
                         ctx.violation("transports-differ-" + shape(t), "socket family and HTTP treat the same call differently",
                                       {"annotation": H.ann_src(t), "value": repr(v)[:300], "mode": mode, "socket": o_s.brief(), "http": o_h.brief()})
-                    if not H.encodable(v):
+                    if not H.encodable(v) or model_skip(t, v):
                         continue
+                    if not opt_first and t[0] == "opt" and t[1][0] == "data":
+                        continue  # unrepaired _build_result_schema: a struct result column, unmodelled inside (even None may fail IPC validation)
                     if mode in ("passed", "default-passed"):
                         for which in (2, 1):
                             out = enc_out(o_s, which)
@@ -430,11 +448,13 @@ def run(ctx: Any) -> None:
     ok_b, bad_b, log_b = ctx.coq_mismatches(HEADER, "run_case", "case_eqb", cases_b, "bool * N * ty * option value * value", "N * value")
     ctx.count("model_cases", len(cases_b))
     ctx.obligation("correspondence:M_Values.run_case", "correspondence", ok_b and not bad_b, log_b if not ok_b else f"{len(bad_b)} of {len(cases_b)} cases disagree")
-    for i in bad_b[:6]:
+    disagreements = []
+    for i in bad_b[:8]:
         t, v, mode, which, o = info_b[i]
         shown = ctx.coq_show(HEADER, f"run_case {cases_b[i][0]}")
-        ctx.violation("model-impl-disagree", "implementation and model decide differently",
-                      {"annotation": H.ann_src(t), "value": repr(v)[:300], "mode": mode, "which": which, "impl": o.brief(), "impl_seen": repr(o.seen)[:200], "model": shown[-400:]})
+        disagreements.append({"annotation": H.ann_src(t), "value": repr(v)[:300], "mode": mode, "which": which, "impl": o.brief(), "impl_seen": repr(o.seen)[:200], "model": shown[-300:]})
+    if disagreements:
+        ctx.violation("model-impl-disagree", "implementation and model decide differently", {"first": disagreements[0], "more": disagreements[1:], "total": len(bad_b)})
     ctx.assumptions += [
         "Arrow IPC stream write/read is the identity on (schema, batch) (pyarrow, trusted); every transport carries the same IPC bytes",
         "pa.array([v], type=t)[0].as_py() = M_Values.arrow_rt on the modelled cells (checked as environment obligation on every run); decimal128, struct columns, "
